@@ -612,7 +612,27 @@ class World:
                 out=env.get("JADE_RUNTIME_OUTPUT", ""), so=os.path.basename(r.get("stdout") or ""),
                 se=os.path.basename(r.get("stderr") or ""), rows=project.names_with_rows(out), live=live,
                 dir=self._dname(out))
+        if self.scn.get("jobevents"):
+            # a job of an extension that logs structured events of its own (jade.events into job-outputs/<job>/events.log): one
+            # event when it starts, one when it ends, through a file handle it keeps open for its whole life -- like the real
+            # process, whose later writes go to the same inode whatever happens to the directory entry meanwhile
+            d = os.path.join(out, "job-outputs", job)
+            os.makedirs(d, exist_ok=True)
+            self.__dict__.setdefault("_evfh", {})[self.handles[h]["job"]] = open(os.path.join(d, "events.log"), "a")
+            self._job_event(self.handles[h], "start")
         return self._reply(p, h=h)
+
+    def _job_event(self, hd, phase):
+        fh = self.__dict__.get("_evfh", {}).get(hd["job"])
+        if fh is None or fh.closed:
+            return
+        self.jobevents_written = getattr(self, "jobevents_written", 0) + 1
+        fh.write(json.dumps({"category": "verif", "data": {"job": hd["job"], "phase": phase}, "event_class": "StructuredLogEvent",
+                             "message": "job event", "name": "verif_job_event", "source": hd["job"],
+                             "timestamp": f"2020-01-01 00:00:00.{self.jobevents_written:06d}"}, sort_keys=True) + "\n")
+        fh.flush()
+        if phase == "end":
+            fh.close()
 
     def _active(self):
         return sum(1 for b in self.batches.values() if b["state"] in ("PENDING", "RUNNING"))
@@ -722,6 +742,7 @@ class World:
         if 0 < hd["owner"] <= len(self.procs):
             self.proc(hd["owner"]).idle = 0
         self.ev(e="jobexit", job=hd["job"], rc=rc, b=self._bnum(hd.get("batch")))
+        self._job_event(hd, "end")
         # a job whose work is to write the next pipeline stage's configuration file (pipelines built from files)
         regen = getattr(self, "regen", {}).get(hd["job"])
         if regen:
@@ -832,6 +853,9 @@ class World:
         for p in self.procs:
             if p.alive:
                 p.reap(kill=True)
+        for fh in self.__dict__.get("_evfh", {}).values():
+            if not fh.closed:
+                fh.close()
 
     def hpc_idle(self):
         return self._active() == 0
